@@ -1,7 +1,75 @@
-//! C34 — not built yet.
-use lv_common::Ctx;
+//! C34 — Data sampling respects concurrency limits and recency order.
+//!
+//! Same simulation as C33 (`daser_sim.rs`), with generated concurrency limit 1..4, header-sub
+//! allowance 0..5, pruner reports around the 512 threshold, chains partly older than the sampling
+//! window and small squares (the subject is scheduling, not shares).
+use lv_common::prelude::*;
 
-pub fn run(_ctx: &mut Ctx) {
-    eprintln!("C34: check not built yet");
-    std::process::exit(2);
+use crate::daser_sim::{DaserRecipe, Mode, dstep_strategy, run_daser_scenario, width_strategy};
+use crate::pruner_sim::{Inconclusives, SimErr};
+
+fn schedule_strategy(max_blocks: usize, max_steps: usize) -> impl Strategy<Value = DaserRecipe> {
+    (
+        (any::<u64>(), 6u8..=48, 1u8..=4, 0u8..=5, 0u8..=10),
+        prop::collection::vec(width_strategy(false), 10..=max_blocks),
+        prop::collection::vec((0u8..4, 1u8..14), 1..=4),
+        prop_oneof![2 => Just(0u8), 1 => 0u8..60],
+        prop_oneof![5 => Just(true), 1 => Just(false)],
+        prop::collection::vec(dstep_strategy(3, 1, 2, 2), 10..=max_steps),
+    )
+        .prop_map(|((seed, sw_h, limit, allowance, n_old), widths, layout, pre_sampled_pct, connect_first, steps)| DaserRecipe {
+            seed,
+            sw_h,
+            limit,
+            allowance,
+            n_old,
+            widths,
+            layout,
+            pre_sampled_pct,
+            connect_first,
+            steps,
+        })
+}
+
+pub fn run(ctx: &mut Ctx) {
+    ctx.assume("in-progress is counted from the daser's own SamplingStarted / SamplingResult events in the order they were published (a sampling is in progress from its SamplingStarted until its SamplingResult or until all peers disconnect)");
+    ctx.assume("'highest known stored height' uses the daser's snapshot semantics: the start is accepted if it is the highest candidate under the store contents at the last (re)connect / head change, under the previous such snapshot during the step that changed the head, or under the current store (DESIGN.md section 7)");
+    ctx.assume("the harness is the store's only writer besides the daser; pruner reports are accepted under the old or the new values during the step that delivers them; the harness removes a height only after want_to_prune granted it and never re-inserts a height");
+    ctx.assume("header times are placed relative to the wall clock with margins of >= 1 hour around the sampling-window cutoff");
+    ctx.essential(&[
+        "start-judged",
+        "start-filling-the-limit",
+        "head-allowance-used",
+        "stale-snapshot-start",
+        "idle-blocked-by-backlog",
+        "idle-top-candidate-older-than-window",
+        "started-above-prunable-with-backlog",
+        "prune-granted",
+        "reconnect",
+        "resampled-height",
+        "sampling-result-timed-out",
+        "insert-historical",
+    ]);
+    ctx.set_shrink_iters(400);
+    let inc = Inconclusives::default();
+    let (cases, max_blocks, max_steps) = match ctx.tier {
+        Tier::Quick => (600u32, 40usize, 100usize),
+        Tier::Thorough => (12000, 50, 160),
+    };
+    ctx.proptest(
+        "daser-scheduling",
+        "a schedule = chain with 0..10 headers older than the sampling window and 10..50 recent ones + concurrency limit 1..4 + header-sub allowance 0..5 + steps (insert head/historical, answer, fail, advance the virtual clock, prune, pruner reports with backlog 0/511/512/513/6000/any, disconnect/reconnect/flap); one evaluation per SamplingStarted; non-trivial iff at that start another block was in progress or at least two candidates existed; distinct by (schedule digest, start index)",
+        cases,
+        move || schedule_strategy(max_blocks, max_steps),
+        |r, obs| match run_daser_scenario(r, Mode { c34: true, ..Mode::default() }, obs) {
+            Ok(()) => Ok(()),
+            Err(SimErr::Fail(f)) => Err(f),
+            Err(SimErr::Inconclusive(why)) => {
+                inc.record(why);
+                obs.label("scenario-not-judged");
+                Ok(())
+            }
+        },
+    );
+    inc.report(ctx, "daser-scheduling");
 }
